@@ -110,6 +110,24 @@ Definition restored_check (before : list event) (l : list (string * value)) : bo
                        || opt_str_eqb (slookup (to_lower t) l) (last_obj t before))
              (updated_tags before).
 
+(* a save is due: some persistent topic got a new value since the last save (the file on disk no longer
+   "contains the latest value of every persistent topic" until the delayed save has run) *)
+Fixpoint due_scan (seen : list event) (due : bool) (rest : list event) : bool :=
+  match rest with
+  | [] => due
+  | e :: r =>
+      due_scan (seen ++ [e])
+               (match e with
+                | SaveTick _ _ => false
+                | Update t _ x => due || (persistent_topic t && negb (opt_str_eqb (last_text t seen) (Some x)))
+                | _ => due
+                end) r
+  end.
+Definition save_due (before : list event) : bool := due_scan [] false before.
+(* saved = whether a save was seen by an observer who waits after the history *)
+Definition wait_spec (before : list event) (saved : bool) : Prop := save_due before = true -> saved = true.
+Definition wait_check (before : list event) (saved : bool) : bool := negb (save_due before) || saved.
+
 (* ---- part 3: a kill between any two file-system operations of a save ---- *)
 (* reads = what start-up reads from the directory as it is before the save (head) and after each completed
    operation; written = the content the save writes.  Never missing (None), and always the complete old or
@@ -163,7 +181,7 @@ Definition check_one (before : list event) (e : event) (o : out) : bool :=
       end
   | Restart, Restored l => restored_check before l
   | Update _ _ _, Published _ => true
-  | Wait, Waited _ => true
+  | Wait, Waited b => wait_check before b
   | _, _ => false
   end.
 
